@@ -79,6 +79,8 @@ func c18Roots(p *chk.Prog) []*chk.Fn {
 
 func runC18(p *chk.Prog, r *chk.Report) {
 	// the per-Service advertisement copies the peer list (AD-BUILD, shared with C05): sorting or editing it in place rewrites the remembered configuration
+	// the listed objects are not written through while the advertisements are attached (ATTACH, shared with C08)
+	c08Attach(p, r)
 	c05Build(p, r)
 	fetchCheckedRule(p, r)
 	sortIdxRule(p, r, false)
